@@ -787,6 +787,15 @@ class ExprMixin:
             return self.assign_rhs_first(args[0], args[1], self.etype(args[0]))
         if name == 'operator=' and d is None and len(args) == 2:
             lt = self.etype(args[0])
+            if lt.kind == 'opt':
+                rt_ = None
+                try: rt_ = self.tyq(self.skip(args[1])['type'])
+                except Unsupported: pass
+                if rt_ is not None and rt_.kind != 'opt':
+                    if 'nullopt' in (self.skip(args[1]).get('type', {}).get('qualType', '')):
+                        return '(%s = %s_none())' % (self.expr(args[0]), lt.c)
+                    self.rules['optional = value'] += 1
+                    return '(%s = %s_some(%s))' % (self.expr(args[0]), lt.c, self.expr(args[1], rvalue=True))
             if lt.kind in ('sv', 'opt', 'pair', 'vec', 'uset', 'umap'):
                 return self.assign_rhs_first(args[0], args[1], lt)
         if d is not None and d.get('kind') == 'CXXMethodDecl' and not self.is_external(d):
